@@ -33,7 +33,7 @@ def configs(tier):
     nw = 5 if tier == 'quick' else 10
     ns = 8 if tier == 'quick' else 16
     cfgs = [{'group': 'welford_step'}, {'group': 'welford_base'}, {'group': 'welford_linear'}, {'group': 'welford_reads', '_cost': 50},
-            {'group': 'smooth_reads'},
+            {'group': 'smooth_reads'}, {'group': 'rejected_update'},
             {'group': 'smooth_step'}, {'group': 'smooth_base'}, {'group': 'smooth_linear'},
             {'group': 'smooth_ctor'}]
     cfgs += [{'group': 'welford_explicit', 'n': n, '_cost': n} for n in range(1, nw + 1)]
@@ -257,3 +257,62 @@ def _smooth_reads(env, cfg):
         guarded(env, 'update', t.update, v)
         exp = (1 - alpha) * exp + alpha * v
     env.claim('read_after_updates', And(eq(t.get(), exp), eq(t(), exp)))
+
+
+class Poison:
+    """a value whose k-th arithmetic use raises (an unsupported operand, an int too large for a float, ...);
+    before that it behaves like the number it wraps"""
+
+    def __init__(self, value, fail_at):
+        self.value, self.fail_at, self.uses = value, fail_at, 0
+
+    def _use(self):
+        self.uses += 1
+        if self.uses > self.fail_at:
+            raise TypeError("unsupported operand")
+        return self.value
+
+    def __add__(self, o): return self._use() + o
+    def __radd__(self, o): return o + self._use()
+    def __sub__(self, o): return self._use() - o
+    def __rsub__(self, o): return o - self._use()
+    def __mul__(self, o): return self._use() * o
+    def __rmul__(self, o): return o * self._use()
+    def __truediv__(self, o): return self._use() / o
+    def __rtruediv__(self, o): return o / self._use()
+
+
+def _rejected_update(env, cfg):
+    """both trackers count their updates and report the closed form of the values they ACCEPTED: an update that raises
+    (at whichever arithmetic step) leaves count and statistics exactly as they were"""
+    which = env.choose(2, label='tracker')
+    k = env.choose(3, label='fails_at_use')
+    v = env.real('v')
+    if which == 0:
+        t = WelfordTracker()
+        N = env.int('N')
+        env.assume(N >= 0)
+        mean, ssq = env.real('mean'), env.real('ssq')
+        t.N, t.tracked_value, t.sum_squares = N, mean, ssq
+        before = (N, mean, ssq)
+        now = lambda: (t.N, t.tracked_value, t.sum_squares)     # noqa: E731
+    else:
+        alpha = env.real('alpha')
+        env.assume(And(alpha >= 0, alpha <= 1))
+        t = _mk_smooth(env, alpha)
+        N = env.int('N')
+        val = env.real('val')
+        t.N, t.tracked_value = N, val
+        before = (N, val)
+        now = lambda: (t.N, t.tracked_value)                    # noqa: E731
+    try:
+        t.update(Poison(v, k))
+        raised = False
+    except TypeError:
+        raised = True
+    if not raised:
+        return      # the value was used fewer than k+1 times: the update went through
+    after = now()
+    env.claim('rejected_update_leaves_count_and_statistics_untouched',
+              And(*[eq(a, b) for a, b in zip(after, before)]),
+              detail=f"{type(t).__name__}: the update raised at use #{k + 1} of the value")
